@@ -74,6 +74,10 @@ Definition cinterp (left right : ext) (ns : list cnode) (x : Q) : option pv :=
       else inner
   end.
 
+(* what a correction calculator passes as left / right (regenerated from the source, Gen/Generated.v): the argument is
+   either INVALID_GAIN (true) or absent (false: np.interp holds the end value) *)
+Definition ext_of_edge (invalid : bool) : ext := if invalid then Inval else Hold.
+
 (* np.reciprocal on complex: 1/(m e^{i p}) = (1/m) e^{-i p}; reciprocal(0) and reciprocal(NaN) are NaN *)
 Definition recip (v : option pv) : option pv :=
   match v with
@@ -103,7 +107,8 @@ Definition valid_nodes (xs : list Q) (vs : list (option pv)) : list cnode := fma
 Definition bandpass_corr_seg (cal_freqs data_freqs : list Q) (bp : list (option pv)) : list (option pv) :=
   match valid_nodes cal_freqs bp with
   | [] => map (fun _ => None) data_freqs
-  | ns => map (fun f => recip (cinterp Inval Inval ns f)) data_freqs
+  | ns => map (fun f => recip (cinterp (ext_of_edge bandpass_left_invalid) (ext_of_edge bandpass_right_invalid) ns f))
+              data_freqs
   end.
 Definition bandpass_corr (cal_freqs data_freqs : list Q) (segs : list (list (option pv))) :=
   map (bandpass_corr_seg cal_freqs data_freqs) segs.
@@ -117,10 +122,12 @@ Definition real_sol (s : sol) : option rsol := match snd s with Some g => Some (
 Definition real_sols (s : list sol) : list rsol := fmap real_sol s.
 Definition qn (n : nat) : Q := inject_Z (Z.of_nat n).
 Definition target_at (targets : list Z) (d : nat) : Z := nth d targets 0%Z.
-(* events[valid], gains_per_chan[valid] with valid = isfinite(gains_per_chan) & on_target[events] *)
+(* events[valid], gains_per_chan[valid] with valid = isfinite(gains_per_chan) & on_target[events]
+   (gain_valid_needs_on_target: regenerated from the source) *)
 Definition gain_node (targets : list Z) (tg : Z) (c : nat) (s : rsol) : option cnode :=
   match nth c (snd s) None with
-  | Some v => if Z.eqb (target_at targets (fst s)) tg then Some (qn (fst s), v) else None
+  | Some v => if negb gain_valid_needs_on_target || Z.eqb (target_at targets (fst s)) tg
+              then Some (qn (fst s), v) else None
   | None => None
   end.
 Definition gain_nodes (rs : list rsol) (targets : list Z) (tg : Z) (c : nat) : list cnode :=
@@ -129,7 +136,7 @@ Definition gain_nodes (rs : list rsol) (targets : list Z) (tg : Z) (c : nat) : l
 Definition gain_value (rs : list rsol) (targets : list Z) (d c : nat) : option pv :=
   match gain_nodes rs targets (target_at targets d) c with
   | [] => None
-  | ns => recip (cinterp Hold Hold ns (qn d))
+  | ns => recip (cinterp (ext_of_edge gain_left_invalid) (ext_of_edge gain_right_invalid) ns (qn d))
   end.
 Definition n_chans (rs : list rsol) : nat := match rs with [] => 1%nat | s :: _ => List.length (snd s) end.
 Definition gain_corr (N : nat) (sols : list sol) (targets : option (list Z)) : list (list (option pv)) :=
@@ -138,6 +145,36 @@ Definition gain_corr (N : nat) (sols : list sol) (targets : option (list Z)) : l
   match rs with
   | [] => repeat [None] N
   | _ => map (fun d => map (gain_value rs tgs d) (seq 0 (n_chans rs))) (seq 0 N)
+  end.
+
+(* ------------------------------------------------------------------ SPEC versions of B and G
+   The same computations with the DOCUMENTED decisions written out (no constant from the source): a bandpass is INVALID
+   beyond the outermost valid channel, a gain holds the nearest valid solution, and a gain solution counts only when it
+   is finite AND was derived on the target of the dump.  Proofs/CalInterpP.v shows model = spec (`*_is_spec`); the
+   correspondence compares the implementation with both. *)
+Definition spec_bandpass_corr_seg (cal_freqs data_freqs : list Q) (bp : list (option pv)) : list (option pv) :=
+  match valid_nodes cal_freqs bp with
+  | [] => map (fun _ => None) data_freqs
+  | ns => map (fun f => recip (cinterp Inval Inval ns f)) data_freqs
+  end.
+Definition spec_bandpass_corr (cal_freqs data_freqs : list Q) (segs : list (list (option pv))) :=
+  map (spec_bandpass_corr_seg cal_freqs data_freqs) segs.
+Definition spec_gain_node (targets : list Z) (tg : Z) (c : nat) (s : rsol) : option cnode :=
+  match nth c (snd s) None with
+  | Some v => if Z.eqb (target_at targets (fst s)) tg then Some (qn (fst s), v) else None
+  | None => None
+  end.
+Definition spec_gain_value (rs : list rsol) (targets : list Z) (d c : nat) : option pv :=
+  match fmap (spec_gain_node targets (target_at targets d) c) rs with
+  | [] => None
+  | ns => recip (cinterp Hold Hold ns (qn d))
+  end.
+Definition spec_gain_corr (N : nat) (sols : list sol) (targets : option (list Z)) : list (list (option pv)) :=
+  let rs := real_sols sols in
+  let tgs := match targets with Some t => t | None => repeat 0%Z N end in
+  match rs with
+  | [] => repeat [None] N
+  | _ => map (fun d => map (spec_gain_value rs tgs d) (seq 0 (n_chans rs))) (seq 0 N)
   end.
 
 (* ------------------------------------------------------------------ flux calibration of G *)
@@ -220,6 +257,20 @@ Definition total_len (ps : list part) : nat := fold_right (fun p n => (List.leng
 Definition stitch (ps : list part) : option (list sample) :=
   match stitch_fuel (total_len ps) ps with [] => None | l => Some l end.
 
+(* multi-part product over several substreams: part n is indirect_cal_product_raw(name + n): EVERY substream must have
+   the sensor <substream>_product_<type><n> (Some), else the KeyError makes the whole part the empty sensor; a single
+   substream is passed through as is, several are concatenated and sorted *)
+Definition is_some {A} (o : option A) : bool := match o with Some _ => true | None => false end.
+Definition part_of_substreams (subs : list (option part)) : part :=
+  if forallb is_some subs then
+    match subs with
+    | [Some p] => p
+    | _ => merge_substreams (fmap (fun o => o) subs)
+    end
+  else [].
+Definition stitch_substreams (parts : list (list (option part))) : option (list sample) :=
+  stitch (map part_of_substreams parts).
+
 (* ------------------------------------------------------------------ product names *)
 Open Scope string_scope.
 Inductive request := RStr (s : string) | RList (l : list string).
@@ -249,7 +300,7 @@ Fixpoint expand (streams : list string) (reqs : list string) : option (list stri
               end
   end.
 Definition is_group (r : request) : bool :=
-  match r with RStr s => String.eqb s "all" || String.eqb s "default" | RList _ => false end.
+  match r with RStr s => mem_string s skip_group_names | RList _ => false end.
 (* None = ValueError *)
 Definition normalise (r : request) (streams : list string) : option (list string * bool) :=
   let req := selection_to_list r streams in
@@ -304,6 +355,12 @@ Definition wire_14 (x : sx) : sx :=
   | L [I 4; I n; sols; tg] =>
       let tgs := match tg with L [t] => Some (to_Zs t) | _ => None end in
       L (map sx_of_opvs (gain_corr (Z.to_nat n) (map sol_of_sx (to_list sols)) tgs))
+  | L [I 23; segs; cf; df] =>
+      L (map sx_of_opvs (spec_bandpass_corr (map q_of_sx (to_list cf)) (map q_of_sx (to_list df))
+                                            (map opvs_of_sx (to_list segs))))
+  | L [I 24; I n; sols; tg] =>
+      let tgs := match tg with L [t] => Some (to_Zs t) | _ => None end in
+      L (map sx_of_opvs (spec_gain_corr (Z.to_nat n) (map sol_of_sx (to_list sols)) tgs))
   | L [I 5; sols; names; measured; ov; rt] =>
       let names := map to_Zs (to_list names) in
       let tbl := merge_flux (ftable_of_sx measured) (match ov with L [o] => Some (ftable_of_sx o) | _ => None end) in
@@ -312,6 +369,12 @@ Definition wire_14 (x : sx) : sx :=
                                        (fun d => nth d names []) tbl))
   | L [I 6; ps] =>
       match stitch (map (fun p => map sample_of_sx (to_list p)) (to_list ps)) with
+      | Some l => L [L (map sx_of_sample l)]
+      | None => L []
+      end
+  | L [I 61; parts] =>
+      let sub_of := fun o => match o with L [p] => Some (map sample_of_sx (to_list p)) | _ => None end in
+      match stitch_substreams (map (fun subs => map sub_of (to_list subs)) (to_list parts)) with
       | Some l => L [L (map sx_of_sample l)]
       | None => L []
       end
